@@ -165,9 +165,12 @@ def runner_state_area():
     L.append("/-- attributes a fresh runner object has when its workers are about to start -/")
     L.append("def probedAttrs : List String :=\n  " + lean_list(attrs))
     L.append("")
-    L.append("/-- (first run, attribute): the attribute's value AFTER that first run differs from a fresh object's at worker\n"
-             "start - i.e. the first runs do leave state behind that the next run has to re-establish -/")
-    L.append("def dirtied : List (String × String) :=\n  [" + ",\n   ".join("(%s, %s)" % (lean_str(a), lean_str(b)) for a, b in dirtied) + "]")
+    L.append("/-- the first runs after which some attribute of the object differs from a fresh object's at worker start, and the\n"
+             "attributes concerned (union over the first runs) - i.e. the first runs do leave state behind that the next run\n"
+             "has to re-establish.  (Which attributes a PARTICULAR first run leaves changed can depend on timing - e.g. whether\n"
+             "the wait loop saw the process end before a dying worker ended the run - so only the union is recorded.) -/")
+    L.append("def dirtied : List String :=\n  " + lean_list([d for d in dirty if any(a == d for a, _ in dirtied)]))
+    L.append("def dirtiedAttrs : List String :=\n  " + lean_list(sorted({b for _, b in dirtied})))
     L.append("")
     L.append("/-- (first run, kind of second run, attribute, value on a fresh object, value on the reused object), at the\n"
              "moment the second run's workers are about to start, wherever the two differ -/")
